@@ -444,6 +444,13 @@ theorem exec_bufExt (σ : State S) (c : Cmd S) : ResExt σ (exec σ c) := by
     simp only [hLeaf, State.alloc]
     rw [Array.getElem?_push_lt (by simp only [Array.size_push]; omega), Array.getElem?_eq_getElem hi,
       Array.getElem_push_lt hi]
+  | lflag l which tr =>
+    simp only [exec]
+    split
+    · split
+      · rp
+      · exact resExt_throw _ _
+    · exact resExt_throw _ _
   | lfwd w l a =>
     simp only [exec]
     split
